@@ -1,0 +1,95 @@
+//go:build verif
+
+package gengo
+
+import (
+	"strings"
+
+	gengotypes "github.com/octohelm/gengo/pkg/types"
+)
+
+// Contracts checked by /verif/govc (see /verif/DESIGN.md). This file is compiled only with -tags verif.
+
+// The split points of a reference string are DEFINED once, in pkg/types (Spec_cut / Spec_dot); the contracts of
+// types.ParseRef and of PkgImportPathAndExpose are both stated over them, which is the "agreement" of C15.
+func spec_cut(s string) int { return gengotypes.Spec_cut(s) }
+func spec_dot(s string) int { return gengotypes.Spec_dot(s) }
+
+func spec_importGoPath(p string) string {
+	if i := strings.LastIndex(p, "/vendor/"); i > 0 {
+		return p[i:]
+	}
+	return p
+}
+
+//@ func Generator.Name
+//@   pure
+//@   note interface method: assumed to be a deterministic observer without side effects for every generator
+
+//@ func ImportGoPath
+//@   props C15
+//@   ensures result == spec_importGoPath(importPath)
+
+//@ func PkgImportPathAndExpose
+//@   props C15
+//@   ensures spec_dot(s) > 0 ==> result0 == spec_importGoPath(s[:spec_dot(s)]) && result1 == s[spec_dot(s)+1:spec_cut(s)]
+//@   ensures spec_dot(s) <= 0 ==> result0 == "" && result1 == s[:spec_cut(s)]
+
+//@ func IsGeneratorEnabled
+//@   props C06 C04
+//@   requires g != nil
+//@   ensures has(tags, "gengo:"+g.Name()) ==> result == (strings.Join(tags["gengo:"+g.Name()], "") != "false")
+//@   ensures !has(tags, "gengo:"+g.Name()) ==> result == (exists k string :: has(tags, k) && strings.HasPrefix(k, "gengo:"+g.Name()+":"))
+//@   loop 1 invariant forall a int :: 0 <= a && a < it1 ==> ks1[a] != prefix
+//@   loop 1 invariant enabled == (exists a int :: 0 <= a && a < it1 && strings.HasPrefix(ks1[a], prefix+":"))
+
+//@ func merge
+//@   props C06 C04
+//@   ensures forall k string :: has(result, k) == (exists i int :: 0 <= i && i < len(tagsList) && has(tagsList[i], k))
+//@   ensures forall k string, i int :: 0 <= i && i < len(tagsList) && has(tagsList[i], k) && (forall j int :: i < j && j < len(tagsList) ==> !has(tagsList[j], k)) ==> eq(result[k], tagsList[i][k])
+//@   loop 1 invariant forall k string :: has(mergedTags, k) == (exists i int :: 0 <= i && i < it1 && has(tagsList[i], k))
+//@   loop 1 invariant forall k string, i int :: 0 <= i && i < it1 && has(tagsList[i], k) && (forall j int :: i < j && j < it1 ==> !has(tagsList[j], k)) ==> eq(mergedTags[k], tagsList[i][k])
+//@   loop 2 invariant forall k string :: has(mergedTags, k) == ((exists i int :: 0 <= i && i < it1 && has(tagsList[i], k)) || (exists a int :: 0 <= a && a < it2 && ks2[a] == k))
+//@   loop 2 invariant forall a int :: 0 <= a && a < it2 ==> eq(mergedTags[ks2[a]], tags[ks2[a]])
+//@   loop 2 invariant forall k string, i int :: 0 <= i && i < it1 && has(tagsList[i], k) && (forall j int :: i < j && j < it1 ==> !has(tagsList[j], k)) && (forall a int :: 0 <= a && a < it2 ==> ks2[a] != k) ==> eq(mergedTags[k], tagsList[i][k])
+
+//@ func gengoCtx.pkgChanged
+//@   props C08
+//@   pure
+//@   requires c != nil && c.args != nil && c.universe != nil
+//@   ensures c.args.Force ==> result
+//@   ensures c.sumFile == nil || c.universe.SumFile() == nil ==> result
+//@   ensures c.sumFile != nil && !has(c.sumFile.Data, pkgPath) ==> result
+//@   ensures !result ==> !c.args.Force && c.sumFile != nil && c.universe.SumFile() != nil && c.sumFile.Sum(pkgPath) == c.universe.SumFile().Sum(pkgPath)
+//@   ensures c.sumFile != nil && c.universe.SumFile() != nil && c.sumFile.Sum(pkgPath) != c.universe.SumFile().Sum(pkgPath) ==> result
+
+// ---- govc prelude: ghost helpers of the clause language (identical in every contracts_verif.go) ----
+
+func spec_old[T any](v T) T                             { return v }
+func spec_entry[T any](v T) T                           { return v }
+func spec_has[K comparable, V any](m map[K]V, k K) bool { _, ok := m[k]; return ok }
+func spec_implies(a, b bool) bool                       { return !a || b }
+func spec_iff(a, b bool) bool                           { return a == b }
+func spec_eq[T any](a, b T) bool                        { panic("ghost: structural equality") }
+func spec_all[T any](p func(T) bool) bool               { panic("ghost: unbounded quantifier") }
+func spec_any[T any](p func(T) bool) bool               { panic("ghost: unbounded quantifier") }
+func spec_fresh(p any) bool                             { panic("ghost: allocation predicate") }
+
+// bounded (executable) quantifiers for spec functions: lo <= i < hi
+func spec_existsIn(lo, hi int, p func(int) bool) bool {
+	for i := lo; i < hi; i++ {
+		if p(i) {
+			return true
+		}
+	}
+	return false
+}
+
+func spec_forallIn(lo, hi int, p func(int) bool) bool {
+	for i := lo; i < hi; i++ {
+		if !p(i) {
+			return false
+		}
+	}
+	return true
+}
